@@ -324,3 +324,150 @@ func returnsFreshNode(f *ssa.Function, depth int) bool {
 	}
 	return true
 }
+
+// ---------------------------------------------------------------------------
+// R-REGEX-REMAINDER (C03): PrefixSearchScan selects the keys "whose remainder matches":
+// every regular-expression match in the cone of Tx.PrefixSearchScan is applied to the
+// scanned key with the scan prefix stripped (bytes.TrimPrefix(key, prefix) or key[len(prefix):]),
+// and that key is the one tested with bytes.HasPrefix against the same prefix.
+
+func ruleRegexRemainder(c *Ctx) {
+	api := c.P.MustFunc("(*Tx).PrefixSearchScan")
+	n := 0
+	for _, f := range c.P.ModCone(api) {
+		calls(f, func(ci ssa.CallInstruction) {
+			cal := ci.Common().StaticCallee()
+			if cal == nil || cal.Pkg == nil || cal.Pkg.Pkg.Path() != "regexp" || cal.Signature.Recv() == nil {
+				return
+			}
+			name := cal.Name()
+			if len(name) < 4 || (name[:4] != "Matc" && name[:4] != "Find") {
+				return
+			}
+			args := argsOf(ci.Common())
+			if len(args) == 0 {
+				return
+			}
+			n++
+			c.touch(f)
+			subject := resolve1(stripConv(args[0]))
+			detail := fmt.Sprintf("regexp %s #%d receives the key remainder", name, n)
+			okb, why := false, "the expression is matched against a value that is not the scanned key with the scan prefix removed: anchored expressions never match and text inside the prefix (or bucket) can match"
+			var key, prefix ssa.Value
+			switch x := subject.(type) {
+			case *ssa.Call:
+				if calleeIs(x.Common(), "bytes", "", "TrimPrefix") || calleeIs(x.Common(), "strings", "", "TrimPrefix") {
+					key, prefix = resolve1(x.Call.Args[0]), resolve1(x.Call.Args[1])
+				}
+			case *ssa.Slice:
+				if x.Low != nil && x.High == nil {
+					if lc, ok := resolve1(x.Low).(*ssa.Call); ok {
+						if b, ok := lc.Call.Value.(*ssa.Builtin); ok && b.Name() == "len" {
+							key, prefix = resolve1(x.X), resolve1(lc.Call.Args[0])
+						}
+					}
+				}
+			}
+			if key != nil {
+				// the same (key, prefix) pair must be the one tested by HasPrefix in this function
+				has := false
+				calls(f, func(cj ssa.CallInstruction) {
+					cc := cj.Common()
+					if calleeIs(cc, "bytes", "", "HasPrefix") || calleeIs(cc, "strings", "", "HasPrefix") {
+						if pathOf(cc.Args[0]) == pathOf(key) && sameValue(resolve1(cc.Args[1]), prefix) {
+							has = true
+						}
+					}
+				})
+				_, isParam := prefix.(*ssa.Parameter)
+				if !isParam {
+					why = "the prefix removed before matching is not the scan's prefix parameter"
+				} else if !has {
+					why = "the key whose remainder is matched is not the key tested with HasPrefix against the same prefix"
+				} else {
+					okb = true
+				}
+			}
+			c.check(okb, fnName(f), detail, c.P.ipos(ci), "TrimPrefix(key, prefix) of the HasPrefix-tested key", why)
+		})
+	}
+	c.Sites += n
+	c.minInstances("regular-expression matches in the PrefixSearchScan cone", n, 2)
+}
+
+// ---------------------------------------------------------------------------
+// R-METARANGE (C02): a bucket's persisted key range [start,end] (sparse mode; GetAll is
+// RangeScan(start,end)) is maintained by two conditional updates, "new minimum" and "new
+// maximum". One transaction can bring both, so the two updates of one BucketMeta must not be
+// mutually exclusive: some path has to perform both.
+
+func ruleMetaRange(c *Ctx) {
+	n := 0
+	for _, f := range c.P.SrcFuncs {
+		if f.Pkg == nil || f.Pkg.Pkg.Path() != modPath {
+			continue
+		}
+		type st struct {
+			s    *ssa.Store
+			base ssa.Value
+		}
+		var starts, ends []st
+		instrs(f, func(in ssa.Instruction) {
+			s, ok := in.(*ssa.Store)
+			if !ok {
+				return
+			}
+			fa, ok := s.Addr.(*ssa.FieldAddr)
+			if !ok {
+				return
+			}
+			fv := fieldVarOf(fa)
+			nm := namedOf(derefT(fa.X.Type()))
+			if fv == nil || nm == nil || nm.Obj().Name() != "BucketMeta" {
+				return
+			}
+			base := resolve1(fa.X)
+			if al, ok := base.(*ssa.Alloc); ok && al.Comment == "complit" {
+				return // initialisation of a fresh value
+			}
+			switch fv.Name() {
+			case "start":
+				starts = append(starts, st{s, base})
+			case "end":
+				ends = append(ends, st{s, base})
+			}
+		})
+		// a block that stores both bounds initialises the range (first key of a bucket / of a transaction);
+		// the conditional updates are the stores that stand alone in their block
+		both := map[*ssa.BasicBlock]int{}
+		for _, a := range starts {
+			both[a.s.Block()] |= 1
+		}
+		for _, b := range ends {
+			both[b.s.Block()] |= 2
+		}
+		for _, a := range starts {
+			if both[a.s.Block()] == 3 {
+				continue
+			}
+			for _, b := range ends {
+				if both[b.s.Block()] == 3 {
+					continue
+				}
+				if pathOf(a.s.Addr.(*ssa.FieldAddr).X) != pathOf(b.s.Addr.(*ssa.FieldAddr).X) && !sameValue(a.base, b.base) {
+					continue
+				}
+				n++
+				c.touch(f)
+				is := func(x *ssa.Store) func(ssa.Instruction) bool {
+					return func(in ssa.Instruction) bool { return in == ssa.Instruction(x) }
+				}
+				both := findPath(f, a.s, is(b.s), nil, nil) != nil || findPath(f, b.s, is(a.s), nil, nil) != nil
+				c.check(both, fnName(f), fmt.Sprintf("range update pair #%d: lowering start and raising end are not mutually exclusive", n), c.P.ipos(a.s), "",
+					"no path updates both BucketMeta.start and BucketMeta.end: a transaction that writes a key below the bucket's minimum and a key above its maximum leaves one bound stale, and sparse-mode GetAll (RangeScan(start,end)) silently omits the keys outside it")
+			}
+		}
+	}
+	c.Sites += n
+	c.minInstances("conditional start/end update pairs of BucketMeta", n, 2)
+}
